@@ -19,16 +19,17 @@ import "golang.org/x/tools/go/ssa"
 
 func init() {
 	// byteconv.UnsafeString is `*(*string)(unsafe.Pointer(&b))`: a string view
-	// of the slice header.  Modelled like unsafe.String (ops.go): a snapshot
-	// of the bytes at the time of the call (its callers do not mutate the
-	// bytes while the string is in use, as its doc comment requires).
+	// of the slice header.  Modelled like unsafe.String (ops.go): an aliasing
+	// view of the bytes.
 	if _, ok := intrinsics["github.com/brimdata/super/pkg/byteconv.UnsafeString"]; !ok {
 		intrinsics["github.com/brimdata/super/pkg/byteconv.UnsafeString"] = func(in *Interp, fr *frame, fn *ssa.Function, a []Value) Value {
 			b, _ := a[0].(Slice)
 			if len(b) == 0 {
 				return in.str("")
 			}
-			return in.bytesToStr(b)
+			// the string shares the slice's bytes: later writes to them show
+			// through (a lost copy of a recycled buffer is thereby visible)
+			return &Str{alias: b[:len(b):len(b)]}
 		}
 	}
 	for _, pkg := range []string{
